@@ -30,6 +30,16 @@ pub enum Tokenizer {
 }
 
 impl CountVectorizerValidParams {
+    /// A parameter set built with `Tokenizer::Function` loses the function when it is deserialized
+    /// (function pointers are skipped): it must not silently fall back to the regex tokenizer.
+    fn validate_deserialization(&self) -> Result<()> {
+        if self.tokenizer_function.is_none() && self.tokenizer_deserialization_guard {
+            return Err(PreprocessingError::TokenizerNotSet);
+        }
+
+        Ok(())
+    }
+
     /// Learns a vocabulary from the documents in `x`, according to the specified attributes and maps each
     /// vocabulary entry to an integer value, producing a [CountVectorizer](CountVectorizer).
     ///
@@ -42,6 +52,7 @@ impl CountVectorizerValidParams {
         &self,
         x: &ArrayBase<D, Ix1>,
     ) -> Result<CountVectorizer> {
+        self.validate_deserialization()?;
         // word, (integer mapping for word, document frequency for word)
         let mut vocabulary: HashMap<String, (usize, usize)> = HashMap::new();
         for string in x.iter().map(|s| transform_string(s.to_string(), self)) {
@@ -78,6 +89,7 @@ impl CountVectorizerValidParams {
         encoding: EncodingRef,
         trap: DecoderTrap,
     ) -> Result<CountVectorizer> {
+        self.validate_deserialization()?;
         // word, (integer mapping for word, document frequency for word)
         let mut vocabulary: HashMap<String, (usize, usize)> = HashMap::new();
         let documents_count = input.len();
